@@ -7,7 +7,7 @@ Close Scope Q_scope.
 Open Scope nat_scope.
 
 (* ------------------------------------------------------------------ _narrow loses nothing *)
-(* what every row of the regenerated if-chain must satisfy: the values admitted by the test fit the width *)
+(* what every row of the regenerated if-chain must satisfy: the values accepted by the test fit the width *)
 Definition entry_ok (e : bool * Z * Z) : bool :=
   let '(le, th, b) := e in (0 <=? b)%Z && ((if le then th else th - 1) <? 2 ^ b)%Z.
 
@@ -58,7 +58,7 @@ Qed.
 Corollary narrow_lossless : forall l, snd (narrow l) = l.
 Proof. intros l. apply narrow_gen_lossless. exact narrow_table_ok. Qed.
 
-(* the chosen type is the FIRST row that admits the maximum (no negative values) *)
+(* the chosen type is the FIRST row that accepts the maximum (no negative values) *)
 Lemma narrow_dtype_first : forall x r, (0 <= zmin_list x r)%Z ->
   fst (narrow (x :: r)) = match find (narrow_hit (zmax_list x r)) narrow_table with
                           | Some (_, _, b) => UInt b | None => KeepDtype end.
